@@ -152,6 +152,7 @@ Gap(a, b) ==
 -----------------------------------------------------------------------------
 (* enumeration of the inputs *)
 
+(* (the dummy parameter keeps TLC from evaluating the set eagerly at start-up) *)
 Layouts0(x) == UNION { [1..n -> 1..NContent] : n \in 1..MaxLen }
 AllParams(typs, retries) ==
   { MkParams(f, lay, typ, re) : f \in Froms, lay \in Layouts0(1), typ \in typs, re \in retries }
